@@ -414,18 +414,18 @@ theorem chkTerminals_predClosed {in0 out0 : List N} {fuel : Nat} {g1 g2 : Graph 
 section Final
 variable {g g2 : Graph N} [LT N] [DecidableRel (α := N) (· < ·)]
 
-/-- the pieces of an accepting `prepare` -/
-theorem prepare_final (hwf : g.WF) (h : prepare g = .ok g2) :
-    isAcyclic g = true ∧ g2.WF ∧ isAcyclic g2 = true ∧ g2.Induced (rmEmpty (cleanStruct g)) ∧
-    (∀ a b, (a, b) ∈ (rmEmpty (cleanStruct g)).edges → b ∈ g2.names → a ∈ g2.names) ∧
-    chkCaps g2 = .ok () := by
-  obtain ⟨hac, hterm, _, hcaps⟩ := prepare_ok h
+/-- the graph `chk_terminals` returns: a well-formed, accepted, predecessor-closed induced sub-graph -/
+theorem terminals_final (hwf : g.WF) (hac : isAcyclic g = true)
+    (hterm : chkTerminals g.inPorts g.outPorts ((rmEmpty (cleanStruct g)).nodes.length + 1)
+      (rmEmpty (cleanStruct g)) = .ok g2) :
+    g2.WF ∧ isAcyclic g2 = true ∧ g2.Induced (rmEmpty (cleanStruct g)) ∧
+    (∀ a b, (a, b) ∈ (rmEmpty (cleanStruct g)).edges → b ∈ g2.names → a ∈ g2.names) := by
   have hcs : (cleanStruct g).WF := hwf.cleanStruct
   have h1 : (rmEmpty (cleanStruct g)).WF := hcs.rmEmpty
   obtain ⟨hind, hclosed⟩ := chkTerminals_predClosed h1 hterm
   have hwf2 : g2.WF := hind.WF h1
   have hi := cleanInv_cleanStruct g
-  refine ⟨hac, hwf2, ?_, hind, hclosed, hcaps⟩
+  refine ⟨hwf2, ?_, hind, hclosed⟩
   apply isAcyclic_sub hac hwf2.namesNodup
   · intro u hu
     have := (rmEmpty_induced hcs).names_sublist.subset (hind.names_sublist.subset hu)
@@ -434,9 +434,21 @@ theorem prepare_final (hwf : g.WF) (h : prepare g = .ok g2) :
   · intro e he
     exact hi.edgesSub e ((rmEmpty_induced hcs).edgesSub.subset (hind.edgesSub.subset he))
 
-/-- in the final graph every capability of a unit is fed from an input port through supporting units -/
-theorem fedFromInputs_final (hwf : g.WF) (h : prepare g = .ok g2) : FedFromInputs g2 := by
-  obtain ⟨hac, hwf2, hac2, hind, hclosed, _⟩ := prepare_final hwf h
+/-- the pieces of an accepting `prepare` -/
+theorem prepare_final (hwf : g.WF) (h : prepare g = .ok g2) :
+    isAcyclic g = true ∧ g2.WF ∧ isAcyclic g2 = true ∧ g2.Induced (rmEmpty (cleanStruct g)) ∧
+    (∀ a b, (a, b) ∈ (rmEmpty (cleanStruct g)).edges → b ∈ g2.names → a ∈ g2.names) ∧
+    chkCaps g2 = .ok () := by
+  obtain ⟨hac, hterm, _, hcaps⟩ := prepare_ok h
+  obtain ⟨h1, h2, h3, h4⟩ := terminals_final hwf hac hterm
+  exact ⟨hac, h1, h2, h3, h4, hcaps⟩
+
+/-- in the graph `chk_terminals` returns every capability of a unit is fed from an input port through supporting
+units -/
+theorem fedFromInputs_terminals (hwf : g.WF) (hac : isAcyclic g = true)
+    (hterm : chkTerminals g.inPorts g.outPorts ((rmEmpty (cleanStruct g)).nodes.length + 1)
+      (rmEmpty (cleanStruct g)) = .ok g2) : FedFromInputs g2 := by
+  obtain ⟨hwf2, hac2, hind, hclosed⟩ := terminals_final hwf hac hterm
   have hcs : (cleanStruct g).WF := hwf.cleanStruct
   have h1 : (rmEmpty (cleanStruct g)).WF := hcs.rmEmpty
   have hi := cleanInv_cleanStruct g
@@ -475,6 +487,10 @@ theorem fedFromInputs_final (hwf : g.WF) (h : prepare g = .ok g2) : FedFromInput
         | cons x t => simpa using hh
   intro u c hc
   exact key u (mem_names_of_capsOf hc) c hc
+
+/-- in the final graph every capability of a unit is fed from an input port through supporting units -/
+theorem fedFromInputs_final (hwf : g.WF) (h : prepare g = .ok g2) : FedFromInputs g2 :=
+  fedFromInputs_terminals hwf (prepare_ok h).1 (prepare_ok h).2.1
 
 end Final
 
